@@ -1,3 +1,4 @@
+import TemplVerif.Generated.Skeletons
 import TemplVerif.Model.Doc
 import TemplVerif.Proofs.Doc
 /-
@@ -44,5 +45,23 @@ example : WellFormed [[97, 98], [99, 100]] ∧ ordered [[97, 98], [99, 100]] (so
 
 /-- The edit that the unrepaired `isWholeDocument` (`||`) mishandled: replace 0:0–0:2 of "ab\ncd" by "X". -/
 example : text (Doc.apply [[97, 98], [99, 100]] (some ⟨⟨0, 0⟩, ⟨0, 2⟩⟩) [88]) = [88, 10, 99, 100] := by decide
+
+-- BEGIN transcription pins (written by tools/mkpins.py)
+/-- T1, transcription pins: the control structure and calls (extract/skeleton.go) of the functions whose models
+    were written by hand are the ones the models were transcribed from:
+      cmd/templ/lspcmd/proxy/documentcontents.go Document.Apply
+      cmd/templ/lspcmd/proxy/documentcontents.go DocumentContents.Apply
+      cmd/templ/lspcmd/proxy/documentcontents.go DocumentContents.Delete
+      cmd/templ/lspcmd/proxy/documentcontents.go DocumentContents.Get
+      cmd/templ/lspcmd/proxy/documentcontents.go DocumentContents.Set
+    A change of what one of them calls or how it branches breaks this theorem; the check then searches for a
+    failing input and reports either that or `no-failing-input-found`. -/
+theorem C17_transcription_pinned :
+    Generated.skel_doc_Apply = 1459160687817986463 ∧
+    Generated.skel_docs_Apply = 8278605816079025170 ∧
+    Generated.skel_docs_Delete = 11745228130802125813 ∧
+    Generated.skel_docs_Get = 5466098810276460731 ∧
+    Generated.skel_docs_Set = 14886732193117025948 := by decide
+-- END transcription pins
 
 end TemplVerif.Props.C17
